@@ -1011,6 +1011,24 @@ vbi_convert_page(vbi_decoder *vbi, cache_page *vtp,
 
 	switch (new_function) {
 	case PAGE_FUNCTION_LOP:
+		/* While the page function was unknown the rows could not
+		   be tested for parity errors. Drop the damaged ones now
+		   as if they had not been received. */
+		for (i = 1; i <= 25; i++) {
+			int j, n = 0;
+
+			if (0 == (vtp->lop_packets & (1 << i)))
+				continue;
+
+			for (j = 0; j < 40; j++)
+				n |= vbi_unpar8 (vtp->data.unknown.raw[i][j]);
+
+			if (n < 0) {
+				memset (vtp->data.unknown.raw[i], 0x20, 40);
+				vtp->lop_packets &= ~(1 << i);
+			}
+		}
+
 		vtp->function = new_function;
 		return vtp;
 
@@ -2634,6 +2652,23 @@ vbi_decode_teletext(vbi_decoder *vbi, uint8_t *buffer)
 
 		case PAGE_FUNCTION_MIP:
 		default:
+			if (PAGE_FUNCTION_UNKNOWN == cvtp->function
+			    && (cvtp->lop_packets & (1 << packet))) {
+				int n_old = 0;
+
+				/* This may turn out to be a normal page. A row
+				   with a parity error shall not replace an intact
+				   row (text and Hamming 8/4 bytes have odd
+				   parity). */
+				for (n = i = 0; i < 40; i++) {
+					n |= vbi_unpar8 (p[i]);
+					n_old |= vbi_unpar8 (cvtp->data.unknown.raw[packet][i]);
+				}
+
+				if (n < 0 && n_old >= 0)
+					break;
+			}
+
 			memcpy(cvtp->data.unknown.raw[packet], p, 40);
 			break;
 		}
